@@ -204,7 +204,7 @@ func runCheck(id, tier string, ignoreKnown, verbose bool) int {
 			continue
 		}
 		if k := isKnown(o.Name); k != nil {
-			fmt.Printf("KNOWN-FINDING: property=%s %s\n", id, k.Rest)
+			fmt.Printf("KNOWN-FINDING: %s\n", k.Rest)
 			knownSeen = append(knownSeen, o.Name)
 			continue
 		}
